@@ -12,7 +12,7 @@ is and waits for a command from the controlling parent on stdin:
 After its final message the child waits: "again <now>" makes the same process construct the Template once
 more (the earlier Template objects stay alive), anything else ends it.
 
-argv: ROOT NOW USE_WRITER    protocol: one JSON object per line on stdout / one command per line on stdin
+argv: ROOT NOW USE_WRITER [ENTRY]   (ENTRY: moddir | modfile | lookup | lookup-callable)    protocol: one JSON object per line on stdout / one command per line on stdin
 """
 import builtins
 import errno
@@ -23,6 +23,7 @@ import sys
 import tempfile
 
 ROOT, NOW, USE_WRITER = sys.argv[1], int(sys.argv[2]), sys.argv[3] == "1"
+ENTRY = sys.argv[4] if len(sys.argv) > 4 else "moddir"
 SRC = os.path.join(ROOT, "src", "t.html")
 MODDIR = os.path.join(ROOT, "mods")
 MODPATH = os.path.join(MODDIR, "t.html.py")
@@ -218,6 +219,7 @@ def _unlink(path, *a, **kw):
 def main():
     import mako.codegen as cg
     import mako.compat as mc
+    import mako.lookup as ml
     import mako.template as mt
 
     class FT:
@@ -273,7 +275,21 @@ def main():
     alive = []          # the Templates of earlier constructions of this process stay referenced
     while True:
         try:
-            t = mt.Template(filename=SRC, uri="/t.html", module_directory=MODDIR, **kw)
+            # the entry points that lead to the same module path
+            if ENTRY == "moddir":
+                t = mt.Template(filename=SRC, uri="/t.html", module_directory=MODDIR, **kw)
+            elif ENTRY == "modfile":
+                t = mt.Template(filename=SRC, uri="/t.html", module_filename=MODPATH, **kw)
+            elif ENTRY == "lookup":
+                lk = ml.TemplateLookup(directories=[os.path.dirname(SRC)], module_directory=MODDIR, **kw)
+                alive.append(lk)
+                t = lk.get_template("/t.html")
+            elif ENTRY == "lookup-callable":
+                lk = ml.TemplateLookup(directories=[os.path.dirname(SRC)], modulename_callable=lambda fn, uri: MODPATH, **kw)
+                alive.append(lk)
+                t = lk.get_template("t.html")
+            else:
+                raise SystemExit("unknown entry " + ENTRY)
             alive.append(t)
             out = t.render()
             try:
